@@ -1,4 +1,5 @@
 import IncanModel.Driver.C04
+import IncanModel.Driver.C05
 import IncanModel.Driver.C19
 
 open Incan.Driver
@@ -6,6 +7,7 @@ open Incan.Driver
 def dispatch (line : String) : String :=
   match line.trimAscii.toString.splitOn " " with
   | "c04" :: rest => handleC04 rest
+  | "c05" :: rest => handleC05 rest
   | "c19" :: rest => handleC19 rest
   | _ => "bad-op"
 
